@@ -11,9 +11,12 @@ LEVEL_NOTE = NOT_UNDER_CONTRACT + "; assumed raise-sets of library calls (binasc
 DESIGN_REF = "DESIGN.md 6 (C01)"
 FUNCTIONS = ENGINE_FUNCS + ["multidecoder.node.Node.flatten", "multidecoder.xor_helper.apply_xor_key", "multidecoder.decoders.shell.find_cmd_strings", "multidecoder.decoders.shell.find_powershell_strings"] + SIMPLE_DECODERS + SHELL_FUNCS
 EXCLUDE_CLAUSES = CORE_ONLY
-SELECT = [r"/safe/", r"/dec/", r"/pre/", r"/callsite/", r"/registry-call/", r"/raises/"]
+# the engine's termination argument (the pop loop `while hit.end > offset + len(node.value)`) rests on the DecoderOK clause `end <= len(data)`:
+# for the decoders under contract that clause is discharged HERE as well (the other DecoderOK clauses belong to C03)
+SELECT = [r"/safe/", r"/dec/", r"/pre/", r"/callsite/", r"/registry-call/", r"/raises/", r"in-bounds\.2", r"/assert/", r"/cut/[^/]*/position"]
 TRUSTED = [NOT_UNDER_CONTRACT]
 BOUNDED = [bounded_scan_total, bounded_decoder_raises, bounded_known_limits]
 
-DEMOTED = {r"find_powershell_strings/safe/IndexError@L\d+:list index": "args[0] needs `the invocation part of a two-word right-split is not blank` through split / join of '/', which the split model does not provide; covered by the run-time stand-in",
+DEMOTED = {r"find_windows_path/safe/IndexError@L\d+:list index": "segments[3] / segments[4] of a device path need the shape of ntpath.normpath's result (at least five pieces after the \\\\.\\ prefix), which is opaque to the encoding; covered by the run-time stand-in",
+           r"find_powershell_strings/safe/IndexError@L\d+:list index": "args[0] needs `the invocation part of a two-word right-split is not blank` through split / join of '/', which the split model does not provide; covered by the run-time stand-in",
            r"find_cmd_strings/safe/IndexError@L\d+:list index": "split[0] needs `the de-escaped match contains a non-blank byte` (a fact about caret_from over L(CMD_RE)) which z3 cannot derive; covered by the run-time stand-in"}
